@@ -175,3 +175,25 @@ package ice
 //@   site call close#1 assert closes-the-local-candidates-of-the-visited-entry: true
 //@   ensures no-local-candidate-is-left: forall k NetworkType :: !has(a.localCandidates, k)
 //@   ensures no-remote-candidate-is-left: forall k NetworkType :: !has(a.remoteCandidates, k)
+
+// The tick of a selected agent: the selected pair is first validated (which may move the agent to Failed and
+// wipe pairs, candidates and transactions) and only then kept alive, and the keepalive goes to the pair that
+// is selected AFTER that validation, never to a pair loaded before it (a wiped generation gets no new transaction).
+//@ func (*Agent).checkKeepalive
+//@   props C06 C04
+//@   opt nosafety
+//@   site call PingCandidate#1 assert pings-the-pair-that-is-selected-now: a.getSelectedPair() != nil && arg0 == a.getSelectedPair().Local && arg1 == a.getSelectedPair().Remote && a.keepaliveInterval != 0
+//@   ensures nothing-selected-nothing-sent: old(a.getSelectedPair()) == nil ==> unchangedExcept()
+//@ func (*controlledSelector).ContactCandidates
+//@   props C06 C04
+//@   opt nosafety
+//@   ghostvar validated bool = false
+//@   site call validateSelectedPair#1 ghost validated := true
+//@   site call checkKeepalive#1 assert keepalive-re-reads-the-selection-after-validating-it: validated && arg0 == s.agent
+//@ func (*controllingSelector).ContactCandidates
+//@   props C06 C04
+//@   opt nosafety
+//@   ghostvar validated bool = false
+//@   site call validateSelectedPair#1 ghost validated := true
+//@   site call checkKeepalive#1 assert keepalive-re-reads-the-selection-after-validating-it: validated && arg0 == s.agent
+//@ enumerate C06 calls ice.(*Agent).checkKeepalive in (*controlledSelector).ContactCandidates, (*controllingSelector).ContactCandidates
